@@ -707,6 +707,58 @@ impl Model {
         }
     }
 
+    /// Behavioural judgement of a sweep step (`self` = state predicted before adopting `o`, `pre` =
+    /// state before the step): which keys disappeared, were they due, was their weight released,
+    /// and -- after a full rotation -- is every key that was already expired gone. Nothing here
+    /// depends on how the implementation indexes expiries or on which tick visits which shard.
+    pub fn sweep_semantics(&self, pre: &Model, o: &Obs, rotated: bool, out: &mut Vec<Mis>) {
+        let now_after = self.now;
+        let held: BTreeMap<u32, u64> = o.store.iter().map(|s| (s.0, s.1)).collect();
+        let charged: BTreeSet<u64> = o.weights.iter().map(|w| w.0).collect();
+        for (k, e) in &pre.keys {
+            let gone = held.get(k) != Some(&e.id);
+            if gone {
+                let due = match e.expiry {
+                    Some(x) => now_after > x,
+                    None => false,
+                };
+                if !due {
+                    out.push(Mis {
+                        aspect: "sweep-semantic",
+                        class: if e.expiry.is_none() { "swept-no-ttl".into() } else { "swept-not-due".into() },
+                        ctx: String::new(),
+                        msg: format!(
+                            "k{} (id {}, expiry {:?}) disappeared during a sweep step although the clock ({}.{:09}) has not passed its current expiry",
+                            k, e.id, e.expiry.map(|x| (x.s, x.n)), now_after.s, now_after.n
+                        ),
+                    });
+                }
+                if charged.contains(&e.id) {
+                    out.push(Mis {
+                        aspect: "sweep-semantic",
+                        class: "weight-not-reclaimed".into(),
+                        ctx: String::new(),
+                        msg: format!("k{} (id {}) was removed by the sweep but its id is still charged", k, e.id),
+                    });
+                }
+            } else if rotated {
+                if let Some(x) = e.expiry {
+                    if pre.now >= x && !pre.soft.contains(k) {
+                        out.push(Mis {
+                            aspect: "sweep-semantic",
+                            class: "not-swept-after-rotation".into(),
+                            ctx: String::new(),
+                            msg: format!(
+                                "k{} (id {}) expired at {}.{:09}, before the rotation began ({}.{:09}); after sweeping every shard it is still held",
+                                k, e.id, x.s, x.n, pre.now.s, pre.now.n
+                            ),
+                        });
+                    }
+                }
+            }
+        }
+    }
+
     /// Adopt what was observed (values are kept for entries that are still the same incarnation).
     pub fn resync(&mut self, o: &Obs) {
         let mut keys = BTreeMap::new();
@@ -1142,6 +1194,9 @@ impl Online for SeqDriver {
             simsync::sim::await_idle(simsync::sim::Role::Worker);
             let o = exec::observe(cache, "step");
             self.model.compare(&o, &mut mis);
+            if matches!(op, Op::AwaitIdle(RoleName::Sweeper) | Op::Rotate) {
+                self.model.sweep_semantics(&pre, &o, matches!(op, Op::Rotate), &mut mis);
+            }
             self.model.resync(&o);
         }
         for m in mis {
@@ -1234,9 +1289,9 @@ pub fn check_admission(w: i64, events: &[Hook], pre: &Model, est: &PreEstimates,
             if let Some(stranger) = sample.iter().find(|s| !charged.contains_key(&s.0)) {
                 push("sample-malformed", format!("sampled id {} is not charged (charged ids {:?})", stranger.0, charged.keys().collect::<Vec<_>>()));
             }
-            let want = charged.len().min(5);
-            if sample.len() != want {
-                push("sample-malformed", format!("sample of {} keys with {} keys charged (expected {})", sample.len(), charged.len(), want));
+            // (how many keys a sample holds is the implementation's choice; only record it)
+            if sample.is_empty() {
+                push("sample-malformed", "a victim was taken from an empty sample".to_string());
             }
             if sample.len() < 5 {
                 crate::exec::probe_run("c06.sample_smaller_than_five");
